@@ -96,6 +96,7 @@ type vfSession struct {
 	srcPaths    []string
 	tunnelConns *vfConnLog
 	stdoutMark int
+	doctor     func([]*sourceFile) []*sourceFile // rewrites the sender's records (hostile names)
 	tunOut      *vfWire // shadow tap: what the client wrote into its tunnel connection
 	tunIn       *vfWire // shadow tap: what the client read from its tunnel connection
 
@@ -351,6 +352,9 @@ func (s *vfSession) Start(srcPaths []string, destRoot string) {
 				err = checkDuplicateNames(files)
 			}
 			if err == nil {
+				if s.doctor != nil {
+					files = s.doctor(files)
+				}
 				args := &tszArgs{baseArgs: base, File: srcPaths}
 				err = sendFiles(s.st, files, args, noTmuxMode, -1)
 			}
@@ -418,6 +422,9 @@ func (s *vfSession) startDirectClient(mode string) {
 				if err := checkDuplicateNames(files); err != nil {
 					return err
 				}
+			}
+			if s.doctor != nil {
+				files = s.doctor(files)
 			}
 			names, err := s.ct.sendFiles(files, s.progress)
 			if err != nil {
